@@ -72,16 +72,18 @@ func tryFindFirstCharClass(node *RegexNode, ccIn **CharSet) int {
 			*ccIn = cc
 		}
 		if cc.IsMergeable() {
-			cc.addChar(node.Ch)
-			cc.negate = true
-			/*if node.Ch > 0 {
+			// Add everything but the excluded char to whatever is already in the set. Both ranges
+			// are added in one step so the set is only normalised once they are both present.
+			var ranges []SingleRange
+			if node.Ch > 0 {
 				// Add the range before the excluded char.
-				cc.addRange(0, (node.Ch - 1))
+				ranges = append(ranges, SingleRange{First: 0, Last: node.Ch - 1})
 			}
 			if node.Ch < unicode.MaxRune {
 				// Add the range after the excluded char.
-				cc.addRange(node.Ch+1, unicode.MaxRune)
-			}*/
+				ranges = append(ranges, SingleRange{First: node.Ch + 1, Last: unicode.MaxRune})
+			}
+			cc.addRanges(ranges)
 			if node.T == NtNotone || node.M > 0 {
 				return 1
 			}
